@@ -87,6 +87,10 @@ func GetProfile(name string) *Profile {
 		return &Profile{Name: name, Conf: "limits", Reloads: []string{"limits", "limits2"}, Queues: []string{"root.a", "root.p.x", "root.p.y"}, Apps: 5, Nodes: 3, Users: u2, Groups: g,
 			W:       withW(map[string]int{"reload": 3, "addApp": 9, "removeApp": 3}),
 			GangPct: 15, ReqNode: 0, MaxPrio: 2, NodeMem: [2]int{4, 8}, AskMem: 3}
+	case "bad":
+		return &Profile{Name: name, Conf: "base", Queues: []string{"root.a", "root.p.x", "root.p.y"}, Apps: 4, Nodes: 3, Users: u2, Groups: g,
+			W:       withW(map[string]int{"bad": 30, "foreign": 4, "foreignRemove": 1, "reportBound": 2, "removeNode": 4}),
+			GangPct: 25, ReqNode: 10, MaxPrio: 3, NodeMem: [2]int{3, 6}, AskMem: 3}
 	case "dyn":
 		return &Profile{Name: name, Conf: "dyn", Queues: []string{"root.a", "root.d.u0", "root.d.u1", "root.e.k", "root.e.m", "", "root.zz.y"}, Apps: 5, Nodes: 3, Users: u2, Groups: g,
 			W:       withW(map[string]int{"cleanQueues": 4, "addApp": 9, "removeApp": 4}),
@@ -253,6 +257,8 @@ func (g *Gen) Next() M {
 		return M{"op": "deny", "key": ki.key, "node": g.node()}
 	case "reload":
 		return M{"op": "reload", "conf": g.P.Reloads[rng.Intn(len(g.P.Reloads))]}
+	case "bad":
+		return randBad(rng)
 	case "cleanQueues", "quotaTick":
 		return M{"op": name}
 	}
